@@ -45,6 +45,9 @@ class Explorer {
   std::vector<ChoicePoint> trace;
   int left[NKINDS];
   bool aborted = false;   // run cut at an already visited state
+  bool cycle = false;     // the run returned to a state it had visited itself (lasso under the default environment)
+  bool trackCycles = false;  // record the states of the current run even when hashing is off (replay)
+  std::vector<uint64_t> runStates;
   bool stopAll = false;   // global stop (deadline)
 
   // choose among n alternatives; kinds[i] in 0..NKINDS-1 (alternative 0 must be kind 0)
@@ -70,9 +73,12 @@ class Explorer {
   // to be called at a choice point BEFORE choose(); returns false if the run must be cut here
   // (state already explored with the same budgets).  Only active beyond the replayed prefix.
   bool checkpoint(uint64_t stateHash) {
-    if (!useHash || trace.size() < prefix.size()) return true;
+    if ((!useHash && !trackCycles) || trace.size() < prefix.size()) return true;
     uint64_t h = stateHash;
     for (int k = 1; k < NKINDS; k++) if (hashBudgetMask & (1u << k)) h = h * 1099511628211ULL ^ (uint64_t)(left[k] + 1);
+    for (uint64_t r : runStates) if (r == h) { cycle = true; aborted = true; return false; }
+    runStates.push_back(h);
+    if (!useHash) return true;
     bool fresh = visited.insert(h).second;
     if (fresh && debugPaths) (*debugPaths)[h] = choicesStr();
     if (!fresh && !collectOnly) { aborted = true; pruned++; return false; }
@@ -101,6 +107,8 @@ class Explorer {
     prefix = pfx;
     trace.clear();
     aborted = false;
+    cycle = false;
+    runStates.clear();
     for (int k = 0; k < NKINDS; k++) left[k] = budget[k];
     body(*this);
     executions++;
